@@ -100,8 +100,13 @@ def instantiate_type(
         instantiation = deepcopy(instantiations[scoped_idx])
         # Replace the part of the template with the instantiation
         # (whole `::`-separated components only, `T::Type` must not become `XXype`).
+        # The template arguments of the instantiation belong to that component:
+        # `T::Value` with T = ns::map<int> is `ns::map<int>::Value`.
+        instantiated_part = parser.Typename(
+            [instantiation.name], instantiation.instantiations).to_cpp()
+        instantiation.instantiations = []
         instantiation.name = "::".join(
-            instantiation.name if part == scoped_template else part
+            instantiated_part if part == scoped_template else part
             for part in str_arg_typename.split("::"))
         return parser.Type(
             typename=instantiation,
